@@ -224,6 +224,7 @@ func run(a []string) int {
 	counters := map[string]int64{}
 	inconcl := map[string]int64{}
 	var samples []any
+	sampleSeen := map[string]bool{}
 	var viols []fw.Violation
 	violBatch := map[int]int{} // index in viols -> batch
 	exhaustive := len(batches) > 0
@@ -252,11 +253,11 @@ func run(a []string) int {
 		for k, v := range r.out.Inconclusive {
 			inconcl[k] += v
 		}
-		if len(samples) < 4 {
-			for _, s := range r.out.Samples {
-				if len(samples) < 4 {
-					samples = append(samples, s)
-				}
+		for _, s := range r.out.Samples {
+			js, _ := json.Marshal(s)
+			if len(samples) < 4 && !sampleSeen[string(js)] {
+				sampleSeen[string(js)] = true
+				samples = append(samples, s)
 			}
 		}
 		for _, v := range r.out.Violations {
